@@ -405,7 +405,25 @@ pub fn check_c06(cfg: &Config, res: &CaseResult, acc: &mut Acc) {
     }
     let Outcome::Ok(bytes) = &res.outcome else { return };
     let a = analyze(bytes, false);
-    if a.lex_err.is_some() {
+    if let Some(e) = &a.lex_err {
+        // without unsafe mutations nothing rewrites emitted bytes: if the content of a frame does not
+        // decode into whole opcodes ending with STOP at the frame's end, some opcode's argument
+        // runs across that end ("no opcode straddles the frame")
+        if !cfg.unsafe_mut && !cfg.mutator_flag() && cfg.proto >= 4 {
+            let pre = crate::lexer::lex_lenient(bytes);
+            if pre.len() >= 2 && pre[0].op.name == "PROTO" && pre[1].op.name == "FRAME" && pre[1].pos == 2 {
+                let msg = format!(
+                    "the content of the FRAME does not decode into whole opcodes that end with STOP at the frame's end ({}): an opcode straddles the frame",
+                    e
+                );
+                acc.violate(Violation {
+                    property: "C06".into(),
+                    signature: format!("C06:frame_straddled:{}", cfg_class(cfg)),
+                    message: format!("{} [{}]", msg, cfg.short()),
+                    replay: replay_case("C06", cfg, Some(bytes), &msg, json!({"offset": e.pos})),
+                });
+            }
+        }
         acc.count("undecodable_outputs_not_judged_here", 1);
         return;
     }
